@@ -53,9 +53,266 @@ def part_fprinter(ctx):
     return found
 
 
+# --------------------------------------------------------------------------------------------- coverage extension (a)
+# Query forms the first stream does not draw: `bits` left to the constructor's value (None / -1), a query length different
+# from the constructor's, the extreme lengths 1 and 2 (every identifier collides), lengths fold() must refuse (not a power
+# of two below 2^32, above 2^32), levels -1 / beyond the last one reached, multi-atom masks and the mask that removes every
+# shell (empty fingerprint), truthy / falsy spellings of the `counts` flag, several queries on ONE pair of objects, one
+# pair of Fingerprinter objects reused over conformers (A B C A), and the pipeline entry point.
+CTOR_BITS = [2 ** 32, 2 ** 32, 2 ** 32, 2 ** 31, 65536, 4096, 4096, 1024, 1024, 64, 32, 32, 8, 2, 1, 48]     # 48: accepted with a warning, every default-length query refused
+QUERY_BITS = [None, None, -1, 2 ** 32, 2 ** 31, 65536, 1024, 64, 32, 2, 1]
+REFUSED_BITS = [100, 3, 2 ** 33, 48]
+COUNT_FLAGS = {False: [False, 0, None], True: [True, 1]}
+
+
+def _u32(i):
+    return (int(i) + 2 ** 32) % 2 ** 32
+
+
+def _foldable(bits):
+    return 0 < bits <= 2 ** 32 and (2 ** 32) % bits == 0 and ((2 ** 32) // bits) & ((2 ** 32) // bits - 1) == 0
+
+
+def _query(case, lv, qbits, mask):
+    """get_fingerprint_at_level with `bits` possibly left to the constructor's value; the model is given the effective length."""
+    r = m1lib.query_impl(case.f, lv, qbits, mask)
+    eff = case.bits if qbits in (None, -1) else qbits
+    case.queries.append((lv, eff, sorted(mask), r))
+    return r, eff
+
+
+def _pair_check(ctx, cb, cc, lv, qbits, mask, stats):
+    """One query on a bit / count pair of fingerprinters that ran on the same input: decided on the implementation."""
+    rb, eff = _query(cb, lv, qbits, mask)
+    rc, _ = _query(cc, lv, qbits, mask)
+    pl = dict(cb.payload(), query={'level': lv, 'bits': qbits, 'effective_bits': eff, 'mask': sorted(mask)},
+              bit=fpgen.obs_json(rb[1]) if rb[0] == 'ok' else rb[1], count=fpgen.obs_json(rc[1]) if rc[0] == 'ok' else rc[1])
+    pl.pop('impl_levels', None)
+    ctx.count(('c17pair', cb.key(), str(lv), str(qbits), tuple(sorted(mask))), True)
+    if rb[0] != rc[0] or (rb[0] == 'err' and rb[1] != rc[1]):
+        ctx.fail('bit and count fingerprinters answer the same query differently (%s vs %s)' % (rb[1] if rb[0] == 'err' else 'ok', rc[1] if rc[0] == 'err' else 'ok'),
+                 pl, finding_key='C17:fprinter-count-vs-bit-outcome', kind='property-on-implementation')
+        return True
+    if rb[0] == 'err':
+        stats['refused'] = stats.get('refused', 0) + 1
+        if _foldable(eff):
+            ctx.fail('query refused (%s) although the length %d is a power-of-two fraction of 2^32' % (rb[1], eff), pl,
+                     finding_key='C17:fprinter-query-refused', kind='property-on-implementation')
+            return True
+        return False
+    if not _foldable(eff):
+        ctx.fail('query with length %d answered although 2^32 / length is not a power of two' % eff, pl, finding_key='C17:fprinter-query-accepted',
+                 kind='property-on-implementation')
+        return True
+    sb = cb.f.get_shells_at_level(level=lv, atom_mask=set(mask))
+    sc = cc.f.get_shells_at_level(level=lv, atom_mask=set(mask))
+    ids_b, ids_c = sorted(_u32(s.identifier) for s in sb), sorted(_u32(s.identifier) for s in sc)
+    mult = Counter(i % eff for i in ids_b)
+    bit, cnt = rb[1], rc[1]
+    stats['ok'] = stats.get('ok', 0) + 1
+    stats['empty'] = stats.get('empty', 0) + (0 if ids_b else 1)
+    stats['with_collision'] = stats.get('with_collision', 0) + (1 if len(mult) < len(set(ids_b)) else 0)
+    stats['with_count_above_1'] = stats.get('with_count_above_1', 0) + (1 if any(v > 1 for v in mult.values()) else 0)
+    bad = None
+    if ids_b != ids_c:
+        bad = 'the two fingerprinters accepted different shells'
+    elif bit['kind'] != 'KBit' or cnt['kind'] != 'KCount':
+        bad = 'class of the result does not follow the counts flag (%s / %s)' % (bit['kind'], cnt['kind'])
+    elif bit['bits'] != eff or cnt['bits'] != eff or bit['level'] != cnt['level'] or bit['level'] != lv:
+        bad = 'length / level label differ (bit %s/%s, count %s/%s, asked %s/%s)' % (bit['bits'], bit['level'], cnt['bits'], cnt['level'], eff, lv)
+    elif not (bit['idx'] == cnt['idx'] == sorted(mult)):
+        bad = 'support of the count fingerprint, set bits and folded identifiers differ'
+    elif {k: int(v) for k, v in cnt['cnt']} != dict(mult) or any(v != int(v) for _, v in cnt['cnt']):
+        bad = 'a count is not the number of accepted shells folding to its position'
+    elif sum(int(v) for _, v in cnt['cnt']) != len(sb):
+        bad = 'counts do not add up to the number of accepted shells'
+    if bad:
+        ctx.fail('count and bit fingerprints of the same run disagree: ' + bad, dict(pl, multiplicities={str(k): v for k, v in mult.items()}),
+                 finding_key='C17:fprinter-count-vs-bit', kind='property-on-implementation')
+        return True
+    # the two objects handed out: converting one gives the other's support; folding further keeps the supports equal and the total
+    C = fpgen.classes()
+    fb = cb.f.get_fingerprint_at_level(level=lv, bits=qbits, atom_mask=set(mask))
+    fc = cc.f.get_fingerprint_at_level(level=lv, bits=qbits, atom_mask=set(mask))
+    ob, oc = fpgen.obs(C['KBit'].from_fingerprint(fc)), fpgen.obs(C['KCount'].from_fingerprint(fb))
+    if ob != dict(bit, name=ob['name']) or oc['idx'] != cnt['idx'] or any(v != 1 for _, v in oc['cnt']):
+        ctx.fail('converting the count result to bits (or the bit result to counts) does not give the other result\'s support', pl,
+                 finding_key='C17:fprinter-convert-result', kind='property-on-implementation')
+        return True
+    # exact=True: the same answer for a level that was generated, IndexError from both otherwise
+    if ctx.rng.random() < 0.4:
+        eb = fpgen.attempt(lambda: fpgen.obs(cb.f.get_fingerprint_at_level(level=lv, bits=qbits, exact=True, atom_mask=set(mask))))
+        ec = fpgen.attempt(lambda: fpgen.obs(cc.f.get_fingerprint_at_level(level=lv, bits=qbits, exact=True, atom_mask=set(mask))))
+        generated = lv is not None and lv != -1 and 0 <= lv <= cb.k
+        stats['exact'] = stats.get('exact', 0) + 1
+        if (eb[0], ec[0]) != (('ok', 'ok') if generated else ('err', 'err')) or (generated and (eb[1] != bit or ec[1] != cnt)) or (not generated and not (eb[1] == ec[1] == 'EIndex')):
+            ctx.fail('exact=True query at level %r (levels 0..%d generated): bit %s, count %s' % (lv, cb.k, eb[1] if eb[0] == 'err' else 'ok', ec[1] if ec[0] == 'err' else 'ok'), pl,
+                     finding_key='C17:fprinter-exact-query', kind='property-on-implementation')
+            return True
+    nb = eff
+    while nb > 1 and ctx.rng.random() < 0.7:
+        nb //= 2 ** ctx.rng.choice([1, 1, 3, 8])
+        nb = max(nb, 1)
+    if nb < eff:
+        r1, r2 = fpgen.attempt(lambda: fpgen.obs(fb.fold(nb))), fpgen.attempt(lambda: fpgen.obs(fc.fold(nb)))
+        m2 = Counter(i % nb for i in ids_b)
+        stats['refolded'] = stats.get('refolded', 0) + 1
+        if r1[0] != 'ok' or r2[0] != 'ok' or not (r1[1]['idx'] == r2[1]['idx'] == sorted(m2)) or {k: int(v) for k, v in r2[1]['cnt']} != dict(m2):
+            ctx.fail('folding both results to %d bits: supports differ or counts are not the multiplicities' % nb,
+                     dict(pl, refold_bits=nb, bit_folded=fpgen.obs_json(r1[1]) if r1[0] == 'ok' else r1[1], count_folded=fpgen.obs_json(r2[1]) if r2[0] == 'ok' else r2[1]),
+                     finding_key='C17:fprinter-refold', kind='property-on-implementation')
+            return True
+    return False
+
+
+def _rand_query(rng, case, allow_refused=True):
+    k = case.k
+    lv = rng.choice([None, None, -1, 0, 1, 2, k, k, max(k - 1, 0), k + 2, case.o['level']])
+    r = rng.random()
+    qbits = rng.choice(REFUSED_BITS) if (allow_refused and r < 0.08) else rng.choice(QUERY_BITS + [case.bits])
+    ret = case.heavy_retained()
+    r = rng.random()
+    if r < 0.45 or not ret:
+        mask = []
+    elif r < 0.7:
+        mask = rng.sample(ret, 1)
+    elif r < 0.9:
+        mask = rng.sample(ret, min(len(ret), rng.choice([2, 3, 4])))
+    else:
+        mask = list(ret)                                    # every shell masked: the empty fingerprint
+    return lv, qbits, mask
+
+
+def _make_pair(ctx, name, m, cid, o, bits, stats):
+    rng = ctx.rng
+    fb_, fc_ = rng.choice(COUNT_FLAGS[False]), rng.choice(COUNT_FLAGS[True])
+    cb = m1lib.Case(name, m, cid, o, bits=bits, counts=fb_)
+    if cb.unstable:
+        stats['unstable_skipped'] = stats.get('unstable_skipped', 0) + 1
+        return None
+    if cb.err is not None:
+        stats['impl_errors'] = stats.get('impl_errors', 0) + 1
+        if cb.heavy_retained() and not cb.has_offtable_bond():
+            ctx.fail('fingerprinting raised %s' % cb.exc, cb.payload(), finding_key=None)
+            return 'failed'
+        return None
+    cc = m1lib.Case(name, m, cid, o, bits=bits, counts=fc_)
+    if cc.err is not None:
+        ctx.fail('fingerprinting with counts=%r raised %s on an input the bit run accepts' % (fc_, cc.exc), cc.payload(), finding_key='C17:fprinter-count-run-raises',
+                 kind='property-on-implementation')
+        return 'failed'
+    stats['flag_spellings'] = stats.get('flag_spellings', {})
+    for v in (fb_, fc_):
+        stats['flag_spellings'][repr(v)] = stats['flag_spellings'].get(repr(v), 0) + 1
+    return cb, cc
+
+
+def part_fprinter_ext(ctx):
+    rng = ctx.rng
+    found = False
+    cases = []
+    stats = {'pairs': 0, 'queries': 0, 'ctor_bits': {}, 'query_bits': {}, 'levels': {}, 'mask_sizes': {}}
+    n = ctx.n(22, 400)
+    src = molgen.pool(rng, n * 2)
+    k = 0
+    while stats['pairs'] < n and k < len(src):
+        name, m0, cid = src[k]
+        k += 1
+        r = rng.random()
+        o = molgen.rand_opts(rng)
+        if r < 0.2:
+            name, m0, cid = molgen.synthetic_symmetric(rng)                     # many shells with one identifier: counts > 1 without folding
+        elif r < 0.3:
+            o = dict(o, remdup=False, level=rng.choice([1, 2, 3]))           # duplicate substructures kept: counts > 1 at 2^32
+        m = molfacts.gridded(m0, conf_ids={cid})
+        bits = rng.choice(CTOR_BITS)
+        pr = _make_pair(ctx, name, m, cid, o, bits, stats)
+        if pr == 'failed':
+            found = True
+        if not isinstance(pr, tuple):
+            continue
+        cb, cc = pr
+        stats['pairs'] += 1
+        stats['ctor_bits'][str(bits)] = stats['ctor_bits'].get(str(bits), 0) + 1
+        qs = [_rand_query(rng, cb) for _ in range(rng.choice([2, 3, 4]))]
+        qs.append(qs[0])                                                        # the first query again after the others
+        for lv, qbits, mask in qs:
+            stats['queries'] += 1
+            for key, v in (('query_bits', qbits), ('levels', 'k+2' if lv == cb.k + 2 else lv), ('mask_sizes', 'all' if mask and len(mask) == len(cb.heavy_retained()) else len(mask))):
+                stats[key][str(v)] = stats[key].get(str(v), 0) + 1
+            found |= _pair_check(ctx, cb, cc, lv, qbits, mask, stats)
+        cases += [cb, cc]
+    # one bit and one count Fingerprinter object, each reused over the conformers of one molecule object (A B C A)
+    from e3fp.fingerprint.fprinter import Fingerprinter
+    reused = {'objects': 0, 'runs': 0}
+    shipped = list(molgen.shipped())
+    rng.shuffle(shipped)
+    for name, m0 in shipped[:ctx.n(3, 12)]:
+        o = dict(molgen.rand_opts(rng), level=rng.choice([2, 3, 5]), remdup=True)
+        bits = rng.choice([2 ** 32, 4096, 1024, 32])
+        mk = lambda c: Fingerprinter(bits=bits, level=o['level'], radius_multiplier=o['mult'], stereo=o['stereo'], counts=c,
+                                     include_disconnected=o['incl'], rdkit_invariants=o['rdkit'], exclude_floating=o['exfloat'],
+                                     remove_duplicate_substructs=o['remdup'])
+        fb, fc = mk(False), mk(True)
+        ids = [conf.GetId() for conf in list(m0.GetConformers())[:3]]
+        m = molfacts.gridded(m0, conf_ids=set(ids))
+        reused['objects'] += 2
+        for cid in ids + ids[:1]:
+            cb = m1lib.Case(name + ' (reused bit fingerprinter)', m, cid, o, bits=bits, counts=False, reuse=fb)
+            if cb.unstable or cb.err is not None:
+                fc.run(cid, m) if cb.err is None else None
+                continue
+            cc = m1lib.Case(name + ' (reused count fingerprinter)', m, cid, o, bits=bits, counts=True, reuse=fc)
+            if cc.err is not None:
+                found = True
+                ctx.fail('reused count fingerprinter raised %s' % cc.exc, cc.payload(), finding_key='C17:fprinter-count-run-raises', kind='property-on-implementation')
+                continue
+            reused['runs'] += 1
+            for lv in [None] + list(range(0, o['level'] + 2)):
+                stats['queries'] += 1
+                found |= _pair_check(ctx, cb, cc, lv, rng.choice([None, bits, 1024, 2]), [], stats)
+            cases += [cb, cc]
+    stats['reused_fingerprinters'] = reused
+    # the entry point most callers use: e3fp.pipeline.fprints_from_mol with counts on and off
+    from e3fp.pipeline import fprints_from_mol
+    pipe = {'molecules': 0, 'fingerprints': 0}
+    for name, m0 in shipped[:ctx.n(3, 10)]:
+        params = {'bits': rng.choice([2 ** 32, 4096, 1024, 32]), 'level': rng.choice([-1, 2, 5]), 'first': rng.choice([1, 2, 3]),
+                  'radius_multiplier': rng.choice([1.5, 1.718, 2.0]), 'stereo': rng.random() < 0.7}
+        lb = fpgen.attempt(lambda: fprints_from_mol(m0, fprint_params=dict(params, counts=False)))
+        lc = fpgen.attempt(lambda: fprints_from_mol(m0, fprint_params=dict(params, counts=True)))
+        pl = {'molecule': name, 'fprint_params': params}
+        pipe['molecules'] += 1
+        ctx.count(('c17pipe', name, str(sorted(params.items()))), True)
+        if lb[0] != 'ok' or lc[0] != 'ok' or len(lb[1]) != len(lc[1]):
+            found = True
+            ctx.fail('fprints_from_mol with counts on / off: %s vs %s' % (lb[1] if lb[0] != 'ok' else len(lb[1]), lc[1] if lc[0] != 'ok' else len(lc[1])), pl,
+                     finding_key='C17:pipeline-count-vs-bit', kind='property-on-implementation')
+            continue
+        for j, (b, c) in enumerate(zip(lb[1], lc[1])):
+            pipe['fingerprints'] += 1
+            ob, oc = fpgen.obs(b), fpgen.obs(c)
+            f = Fingerprinter(bits=params['bits'], level=params['level'], radius_multiplier=params['radius_multiplier'], stereo=params['stereo'], counts=True)
+            f.run(m0.GetConformers()[j].GetId(), m0)
+            mult = Counter(_u32(s.identifier) % params['bits'] for s in f.get_shells_at_level(level=params['level']))
+            if (ob['kind'], oc['kind']) != ('KBit', 'KCount') or ob['idx'] != oc['idx'] or ob['bits'] != oc['bits'] or ob['level'] != oc['level'] \
+                    or ob['name'] != oc['name'] or {k: int(v) for k, v in oc['cnt']} != dict(mult):
+                found = True
+                ctx.fail('fprints_from_mol: count and bit fingerprints of conformer %d disagree (class / support / name / multiplicities)' % j,
+                         dict(pl, bit=fpgen.obs_json(ob), count=fpgen.obs_json(oc), multiplicities={str(k): v for k, v in mult.items()}),
+                         finding_key='C17:pipeline-count-vs-bit', kind='property-on-implementation')
+    stats['pipeline'] = pipe
+    ctx.coverage.setdefault('input_distribution', {})['fprinter_pairs_ext'] = stats
+    found |= m1lib.run_cases(ctx, cases, 'C17 fingerprinter bit/count queries (extended query forms, reused objects)') > 0
+    return found
+
+
+
+
 def run(ctx):
     ok, res = core.proof_step(ctx)
     found = part_fprinter(ctx)
+    found |= part_fprinter_ext(ctx)
     parts = []
     for modname in ('props.c17_fp', 'props.c17_db'):
         try:
